@@ -658,6 +658,9 @@ class ConnGen:
     def next(self, d, kind=None):
         if not self.started:
             self.started = True
+            if self.profile.get('id_bases'):
+                # the session is joined late (gdb attached to a running program, a log cut at the front): ids are wherever they are
+                self.next_client = d.choice(self.profile['id_bases'])
             if kind is None and d.chance(0.8):
                 m = self.step_first(d)
                 self.nmsg += 1
